@@ -303,6 +303,18 @@ var c16Grid = []string{
 	"\x03\xff\x80", "\x00\x00", "\x01", "\x7f", "\x80", "\xf8", "\xf8\xff\xff\xff\xff\xff\xff\xff\xff", "\xfe\xff\xff", "\xfc\x7f\xff\xff\xff\x00\x00", "\x04\xff\x81\x03\x01",
 }
 
+// every JSON field of a result and of a target with every kind of one-token value: a decoder
+// that slices, indexes or type-asserts what it was given must cope with the shortest specimens
+func init() {
+	fields := []string{"attack", "seq", "code", "timestamp", "latency", "bytes_out", "bytes_in", "error", "body", "method", "url", "headers", "header"}
+	values := []string{"0", "7", "-1", "1e9", "\"\"", "\"x\"", "\"=\"", "true", "null", "[]", "{}", "[0]", "{\"a\":0}", "{\"a\":[0]}", "\"2006-01-02T15:04:05Z\"", "\"0000-00-00T00:00:00Z\""}
+	for _, f := range fields {
+		for _, v := range values {
+			c16Grid = append(c16Grid, fmt.Sprintf("{%q:%s}\n", f, v))
+		}
+	}
+}
+
 var c16DictCommon = []string{"\x00", "\n", "\r\n", " ", "\t", ",", ":", ";", "\"", "'", "\\", "/", "[", "]", "{", "}", "=", "-", "+", ".", "0", "-1", "1e999", "NaN", "\xff", "\xc0\xaf", "\xed\xa0\x80", "\xf4\x90\x80\x80", "\xe2\x80\xa8", " ", "\u0085", "\v", "\f", "@", "#", "%"}
 
 var c16Dict = map[string][]string{
